@@ -220,13 +220,24 @@ pub fn rec_optval(args: &Args) {
                     ("set_options_uint", json!({"num": num, "w": w, "ds": xs.iter().map(|x| digits(*x, w as usize)).collect::<Vec<_>>()}))
                 }
                 4 => {
-                    let x = random_value(&mut r, 4) as u32;
+                    // half of the time with the very number the getter reports now (the stored bytes may be a
+                    // padded encoding of it, put there by a raw call or a peer: the setter must still store
+                    // the minimal form)
+                    let mut x = random_value(&mut r, 4) as u32;
+                    if r.chance(1, 2) {
+                        if let Some(Ok(cur)) = p.get_observe_value() {
+                            x = cur;
+                        }
+                    }
                     p.set_observe_value(x);
                     ("set_observe_value", json!({"digits": digits(x as u64, 4)}))
                 }
                 5 => {
                     let len = *r.pick(&[0usize, 1, 2, 3, 4, 5, 8, 9]);
                     let mut b = r.bytes(len);
+                    if num == 6 && r.chance(1, 2) {
+                        b = r.pick(&[&[0][..], &[0, 0, 5][..], &[0, 1, 0, 0][..], &[0, 0, 0, 0][..], &[0, 255][..], &[0, 0, 1, 0, 0][..]]).to_vec();
+                    }
                     if num == 12 && r.chance(1, 2) {
                         b = r.pick(&[&[][..], &[0][..], &[50][..], &[0, 50][..], &[41][..], &[1, 2, 3][..], &[0, 0, 50][..], &[45, 22][..]]).to_vec();
                     }
